@@ -8,7 +8,7 @@
    representable examples.  For arbitrary doubles the tie with the code is the correspondence
    and the oracle (tested_only). *)
 From Coq Require Import String ZArith Bool Arith List PrimFloat.
-From SV Require Import Names Rep Complex Homology Filtration Gen World Small Sweeps Floats.
+From SV Require Import Names Rep Complex Homology Filtration Gen World Small Sweeps Floats VInv FlagSound FlagComplete VRProofs.
 Import ListNotations.
 
 Theorem C12_family_upto4_partial :
@@ -28,3 +28,43 @@ Theorem C12_closeness_examples :
   close (-1) [0; 0]%float [0; 0]%float = false /\ distance [2]%float [-1]%float = 3%float.
 Proof. split; [exact distance_345|]. split; [exact close_tie|]. split; [exact close_negative | exact distance_1d]. Qed.
 Print Assumptions C12_closeness_examples.
+
+(* EVERY FINITE SET OF POINTS, EVERY SET OF CLOSE PAIRS ------------------------------------------------
+   The model runs vietorisRipsComplex as the code does: a private complex with the embedding's points
+   (same names) and one edge per close pair (i < j in the listing of points), then its flag complex.
+   `close` is the list of pairs for which the code's `distance(...) <= eps` held; the binary64 test
+   itself is Floats.close, tied to the code bit for bit on every run (floatcorr).  For every such
+   list: the result meets the vertex-set reading, has exactly the embedding's points, and a set B of
+   two or more points carries a simplex EXACTLY WHEN every two points of B are a close pair.
+   (That the working copy inside flagComplex succeeds is tested, not proved.) *)
+Theorem C12_family :
+  forall hp uid u r close vr hp1 c,
+  NoDup (simplicesOfOrder r 0) ->
+  (forall ij, In ij close -> fst ij < snd ij /\ snd ij < length (simplicesOfOrder r 0)) ->
+  vr_build uid r close = (vr, Ok tt) -> copy_new hp (view_of vr) u = (hp1, c, Ok tt) ->
+  exists r', flagComplex hp vr u = (hp1, r', Ok tt) /\ vinv r' /\
+    (forall p, carried r' [p] <-> In p (simplicesOfOrder r 0)) /\
+    (forall B, NoDup B -> 2 <= length B ->
+       (carried r' B <-> forall p q, In p B -> In q B -> p <> q -> closepair (simplicesOfOrder r 0) close p q)).
+Proof. exact vr_family. Qed.
+Print Assumptions C12_family.
+
+(* eps1 <= eps2 gives fewer close pairs: the family at eps1 is contained in the family at eps2 *)
+Theorem C12_monotone :
+  forall ss close1 close2 r1 r2, incl close1 close2 -> vr_fam ss close1 r1 -> vr_fam ss close2 r2 ->
+  forall B, NoDup B -> 2 <= length B -> carried r1 B -> carried r2 B.
+Proof. exact vr_monotone. Qed.
+Print Assumptions C12_monotone.
+
+(* no close pair (a negative radius): just the points *)
+Theorem C12_no_close_pair_just_the_points :
+  forall ss r', vr_fam ss [] r' -> forall B, NoDup B -> 2 <= length B -> ~ carried r' B.
+Proof. exact vr_no_pairs. Qed.
+Print Assumptions C12_no_close_pair_just_the_points.
+
+(* every pair close (a radius at least the diameter): the full simplex on all points *)
+Theorem C12_all_pairs_close_full_simplex :
+  forall ss close r', NoDup ss -> (forall i j, i < j -> j < length ss -> In (i, j) close) -> vr_fam ss close r' ->
+  forall B, NoDup B -> 2 <= length B -> incl B ss -> carried r' B.
+Proof. exact vr_all_pairs. Qed.
+Print Assumptions C12_all_pairs_close_full_simplex.
